@@ -1427,7 +1427,30 @@ func isStringVal(v ssa.Value) bool {
 // one-channel wrapper's closing method on the field, or the call that is handed a closure of fn which closes it
 // (sync.Once.Do).
 func (p *Prog) closeSitesIn(fn *ssa.Function, field *types.Var) []ssa.Instruction {
+	return p.closeSitesIn1(fn, field, 0)
+}
+
+func (p *Prog) closeSitesIn1(fn *ssa.Function, field *types.Var, depth int) []ssa.Instruction {
 	var out []ssa.Instruction
+	// a helper of the same package that closes the latch (signalDrain(): once.Do(func() { close(l.drain) }))
+	if depth < 2 && fn.Blocks != nil {
+		eachInstr(fn, func(_ *ssa.BasicBlock, _ int, in ssa.Instruction) {
+			if _, isGo := in.(*ssa.Go); isGo {
+				return
+			}
+			cc := callOf(in)
+			if cc == nil {
+				return
+			}
+			g := cc.StaticCallee()
+			if g == nil || g == fn || g.Blocks == nil || g.Pkg == nil || g.Pkg != fn.Pkg || g.Parent() != nil {
+				return
+			}
+			if len(p.closeSitesIn1(g, field, depth+1)) > 0 {
+				out = append(out, in)
+			}
+		})
+	}
 	for _, op := range p.chanOpsOnField(field) {
 		if op.Kind != opClose {
 			continue
